@@ -478,6 +478,11 @@ func (x *Exec) staticExprType(f *ssa.Function, fc *FuncContract, e Expr) types.T
 
 // externalArgsFrame: an external (non-module) callee may write through pointer and map arguments.
 func (x *Exec) externalArgsFrame(args []ssa.Value, loop map[*ssa.BasicBlock]bool, cells map[*ssa.Alloc]bool, frame *FrameSet) {
+	// closures of this function that were handed to code outside the module (a goroutine pool, sync.Once, ...) may run
+	// at any later external call (e.g. task.Wait()): every external call carries their write sets
+	for _, fn := range x.escapingClosures() {
+		frame.union(x.prog.writeSetX(fn, true))
+	}
 	for _, a := range args {
 		if fns := localClosures(a); len(fns) > 0 {
 			for _, fn := range fns {
@@ -1897,4 +1902,45 @@ func (x *Exec) fromEffectFreePkg(v ssa.Value, depth int) bool {
 		}
 	}
 	return false
+}
+
+// escapingClosures: closures created in the function under verification that are passed to a call outside the module.
+func (x *Exec) escapingClosures() []*ssa.Function {
+	if x.fn == nil {
+		return nil
+	}
+	if x.escClosures != nil {
+		return x.escClosures[x.fn]
+	}
+	x.escClosures = map[*ssa.Function][]*ssa.Function{}
+	var out []*ssa.Function
+	seen := map[*ssa.Function]bool{}
+	for _, b := range x.fn.Blocks {
+		for _, in := range b.Instrs {
+			ci, ok := in.(ssa.CallInstruction)
+			if !ok {
+				continue
+			}
+			c := ci.Common()
+			external := false
+			if c.IsInvoke() {
+				external = !moduleInterface(c.Value.Type())
+			} else if f := c.StaticCallee(); f != nil {
+				external = !fnInModule(f) && f.Parent() == nil
+			}
+			if !external {
+				continue
+			}
+			for _, a := range c.Args {
+				for _, fn := range localClosures(a) {
+					if !seen[fn] {
+						seen[fn] = true
+						out = append(out, fn)
+					}
+				}
+			}
+		}
+	}
+	x.escClosures[x.fn] = out
+	return out
 }
